@@ -9,9 +9,9 @@ from harness import c08_lib as L
 PROP = "C08"
 COQ = dict(imports=["Model.Render", "Spec.C08"], in_ty="c08_in", out_ty="c08_out", corr="corr_C08", decide="check_C08",
            inclass="inclass_C08", model="model_C08")
-THEOREMS = ["py_repr_roundtrip", "C08_lex_tokens", "C08_all_leaves_via_repr", "C08_tokens", "C08_eval", "C08_decider_sound",
-            "C08_main", "C08_eval_refuted_default_quotes", "C08_eval_refuted_quote_flag", "C08_eval_refuted_drop_table_types",
-            "C08_eval_refuted_batch_prefix", "C08_prefix_raw_quote_refuted"]
+THEOREMS = ["py_repr_roundtrip", "C08_lex_tokens", "C08_all_leaves_via_repr", "C08_render_wf", "C08_tokens",
+            "C08_raw_quote_breaks", "C08_eval", "C08_decider_sound", "C08_main", "C08_eval_refuted_default_quotes",
+            "C08_eval_refuted_quote_flag", "C08_eval_refuted_drop_table_types"]
 TRUSTED = [
     "CPython's parser for the step from the token list to the call tree (ast.parse on the real text is part of the correspondence)",
     "str.isprintable enters py_repr as a Section variable (the round trip is proved for every oracle)",
@@ -149,7 +149,9 @@ class G:
         if r.random() < .4:
             cons.append({"k": "ck", "sql": r.choice(SQLS), "name": self.cname()})
         return {"name": self.name(), "schema": self.oname(.4), "cols": cols, "cons": cons,
-                "comment": self.text() if r.random() < .3 else None, "prefixes": ["TEMPORARY"] if r.random() < .1 else [],
+                "comment": self.text() if r.random() < .3 else None,
+                "prefixes": ([r.choice(["TEMPORARY", "TEMP'ORARY", 'say "x"', "back\\slash", "é"])] + (["UNLOGGED"] if r.random() < .3 else []))
+                if r.random() < .15 else [],
                 "if_not_exists": r.choice([None, None, None, True, False])}
 
     def tblop(self, kind):
@@ -214,7 +216,7 @@ def no_enum(t):
 def gen_case(rnd, k):
     weird = [0.0, 0.3, 0.7, 1.0][k % 4]
     g = G(rnd, weird)
-    cfg = {"op": "op", "sa": "sa", "batch": (k // 4) % 2 == 1}
+    cfg = {"op": "aop" if k % 5 == 0 else "op", "sa": "sqla" if k % 7 == 0 else "sa", "batch": (k // 4) % 2 == 1}
     nc = (k // 8) % 2 == 1
     ops = []
     for _ in range(rnd.randint(1, 3)):
@@ -250,8 +252,8 @@ def gen_single(rnd, kind, k):
     return {"stream": "A", "cfg": cfg, "nc": nc, "ops": ops}
 
 
-FINDING_IDS = ["C08-server-default-quote-strip", "C08-quoted-name-flag-lost", "C08-table-prefix-raw-quote",
-               "C08-batch-header-ignores-module-prefix", "C08-add-column-primary-key-lost", "C08-drop-table-enum-type",
+FINDING_IDS = ["C08-server-default-quote-strip", "C08-quoted-name-flag-lost",
+               "C08-add-column-primary-key-lost", "C08-drop-table-enum-type",
                "C08-mysql-functional-index-parens", "C08-percent-doubled-in-sql-expressions"]
 
 
@@ -281,14 +283,6 @@ def finding_cases(reg):
                                                           "prefixes": [], "if_not_exists": None}, "if_exists": None}]})
         out.append({"stream": "A", "cfg": cfg, "nc": False, "finding": "C08-quoted-name-flag-lost", "quote": True,
                     "ops": [{"k": "modify", "table": "plain", "schema": None, "ops": [{"k": "drop_column", "col": col()}]}]})
-    if "C08-table-prefix-raw-quote" in reg:
-        out.append({"stream": "A", "cfg": cfg, "nc": False, "finding": "C08-table-prefix-raw-quote",
-                    "ops": [{"k": "create_table", "table": {"name": "t", "schema": None, "cols": [col()], "cons": [], "comment": None,
-                                                            "prefixes": ["TEMP'ORARY"], "if_not_exists": None}}]})
-    if "C08-batch-header-ignores-module-prefix" in reg:
-        out.append({"stream": "A", "cfg": {"op": "aop", "sa": "sa", "batch": True}, "nc": False,
-                    "finding": "C08-batch-header-ignores-module-prefix",
-                    "ops": [{"k": "modify", "table": "t", "schema": None, "ops": [{"k": "drop_column", "col": col()}]}]})
     if "C08-drop-table-enum-type" in reg:
         out.append({"stream": "A", "cfg": cfg, "nc": False, "finding": "C08-drop-table-enum-type",
                     "ops": [{"k": "drop_table", "table": {"name": "t", "schema": None, "cols": [col(type=("Enum", ["a", "b"]))], "cons": [],
